@@ -215,12 +215,7 @@ def lexAux : Nat → List Char → Bool → List Tok → LexRes
             | some ts => lexAux fuel r true (ts.reverse ++ .word (String.ofList base) :: acc)
             | none => .unsupported
           | [] => .unsupported
-      else if c == '{' then
-        match acc with
-        | .word w :: _ =>
-          -- `graph = { ^"Graph" ~ "{" … }`: graph literals are outside the model
-          if lowerWord w == "graph" then .unsupported else lexAux fuel rest false (.lbrace :: acc)
-        | _ => lexAux fuel rest false (.lbrace :: acc)
+      else if c == '{' then lexAux fuel rest false (.lbrace :: acc)
       else if c == '}' then
         match rest with
         | '_' :: _ =>
